@@ -91,6 +91,16 @@ def run(outcome, tier, seed):
         for argv in (["a.json", "-f", "yaml"], ["-", "-f", "msgpack"], ["b.yaml", "-f", "json", "b.yaml"], ["a.json", "-t", "yaml", "-f", "json"],
                      ["c.toml", "-fy"], ["und.txt", "-f", "json"], ["a.json", "b.yaml", "-f", "yaml", "-t", "msgpack"], ["-", "-ty"]):
             cases.append(cli.Case(argv, STDIN, "pipe"))
+        # operands that are not regular files: what comes through a FIFO is read and judged like any other input
+        import os
+        for k, (name, data) in enumerate([("f%d.json", b'{"a":[1,2,}'), ("f%d.dat", b"@@@ not a document @@@"), ("f%d.yaml", b"~: 1\n"), ("f%d.json", b'{"ok":1}'),
+                                           ("f%d", b""), ("f%d.toml", b"= 1\n")]):
+            name = name % k
+            os.mkfifo(fx.path(name))
+            cases.append(cli.Case(["-tj", name], None, "pipe", fifos={name: data}))
+            name2 = "g" + name
+            os.mkfifo(fx.path(name2))
+            cases.append(cli.Case(["-tj", "a.json", name2], None, "pipe", fifos={name2: data}))
         # the terminal guard for every target
         for to in ("json", "yaml", "toml", "msgpack", "m", "j"):
             cases.append(cli.Case(["-t", to, "a.json"], None, "tty"))
